@@ -37,6 +37,11 @@ def aop? (t : String) : Option AOp :=
   else if t.startsWith "r" then
     match (t.drop 1).toString.splitOn ":" with
     | [p, c] => do pure (.read (← p.toNat?) (← c.toNat?))
+    | [p, c, i] => do
+      -- a ReadBuf over uninitialised storage with only `i` unfilled bytes initialised: the model has no
+      -- notion of initialisation (no observable of the property depends on it)
+      let _ ← i.toNat?
+      pure (.read (← p.toNat?) (← c.toNat?))
     | _ => none
   else if t.startsWith "w" then (unhex? (t.drop 1).toString).map .write
   else none
@@ -229,7 +234,7 @@ def checkAP (oc : Bool) (pre opT resT postT : List String) : Option (List String
   let ip ← obs? postT
   let impl := " ".intercalate resT
   let (mb, mres, sat) ← match opT with
-    | ["pr", p, c] => do
+    | "pr" :: p :: c :: _initialised => do
       let p ← p.toNat?; let c ← c.toNat?
       let (b', res, rb') := bufPollRead oc b (mkRb p c)
       let n := min c b.len
